@@ -130,6 +130,16 @@ theorem C01_regress_dup_keyword :
     (run Cfg.preFix (recorder 0) cexDupKw [] {}).1.toOption.isSome ≠ (Py.run (recorder 0) cexDupKw [] {}).1.toOption.isSome := by
   decide
 
+/-- `f(**{"7": 2}, 7=T(1), k=T(2))` – CPython evaluates the whole run of explicit keywords (T(1), T(2)) before the merge
+raises TypeError; before fix 06e8bd2 the duplicate raised at once and T(2) was never evaluated -/
+def cexKwGroup : List Stmt :=
+  [.assign [.name "f"] (.leaf 0),
+   .expr (.call (.name "f") [] [.splat (.dict [.kv (.fstr [.lit 7]) (.const 2)]), .named "7" (.leaf 1), .named "k" (.leaf 2)])]
+theorem C01_regress_kw_group :
+    logOf (run { Current.cfg with kwGroupMerge := false } (recorder 0) cexKwGroup [] {})
+      ≠ logOf (Py.run (recorder 0) cexKwGroup [] {}) ∧
+    logOf (run Current.cfg (recorder 0) cexKwGroup [] {}) = logOf (Py.run (recorder 0) cexKwGroup [] {}) := by decide
+
 /-- non-vacuity: a program with every node kind lies in today's fragment -/
 def sample : List Stmt :=
   [.assign [.name "a", .tup false [.name "b"] (some "c") [.sub (.name "a") (.const 0)]] (.leaf 1),
